@@ -83,6 +83,10 @@ fn cmd_run(args: &[String]) -> i32 {
     ctx.progress_path = arg_val(args, "--progress");
     (def.setup)(&mut ctx);
     let strata = (def.strata)(tier);
+    // --cases-div N: a reduced pass (used for the per-feature-configuration runs): every N-th case of every stratum
+    // (same case addressing, so replays work); exhaustive strata are then not reported as exhaustive
+    let div: u64 = arg_val(args, "--cases-div").and_then(|s| s.parse().ok()).unwrap_or(1).max(1);
+    let was_exhaustive: Vec<bool> = strata.iter().map(|s| s.exhaustive).collect();
     for (si, s) in strata.iter().enumerate() {
         if let Some(o) = &only_stratum {
             if o != s.name {
@@ -90,13 +94,13 @@ fn cmd_run(args: &[String]) -> i32 {
             }
         }
         ctx.begin_stratum(s.name);
-        if s.exhaustive {
+        if s.exhaustive && div == 1 {
             ctx.exhaustive_strata.push(s.name.to_string());
         }
-        let mut case = shard;
+        let mut case = shard + nshards * (seed % div);
         while case < s.cases {
-            run_one(def, &mut ctx, si, s.exhaustive, case);
-            case += nshards;
+            run_one(def, &mut ctx, si, was_exhaustive[si], case);
+            case += nshards * div;
         }
     }
     let json = ctx.to_json(t0.elapsed().as_secs_f64());
